@@ -335,6 +335,10 @@ func vlRun(t *testing.T, c *vfCase, st *vfStats) {
 			st.Panics++
 		}
 		st.class(fmt.Sprintf("%d|%v|%v|%v|%v", op[0], pan, slow, shut, m.hasLeft()))
+		if pan {
+			// a panic inside the library may have left a lock held: nothing after it can be trusted (or may return)
+			break
+		}
 	}
 	if !shut {
 		m.Shutdown()
